@@ -366,8 +366,7 @@ def val_max(ctx, a, b):
     if isinstance(a, Int) and isinstance(b, Int):
         if isinstance(a.v, int) and isinstance(b.v, int):
             return b if a.v <= b.v else a
-        le = ctx.m.int_binop('Le', a, b)
-        return Int(z3.If(le, b.z(), a.z()), a.ty)
+        return b if ctx.branch(ctx.m.int_binop('Le', a, b)) else a
     c = ctx.m.cmp(a, b)
     return b if c <= 0 else a
 
@@ -376,8 +375,7 @@ def val_min(ctx, a, b):
     if isinstance(a, Int) and isinstance(b, Int):
         if isinstance(a.v, int) and isinstance(b.v, int):
             return a if a.v <= b.v else b
-        le = ctx.m.int_binop('Le', a, b)
-        return Int(z3.If(le, a.z(), b.z()), a.ty)
+        return a if ctx.branch(ctx.m.int_binop('Le', a, b)) else b
     c = ctx.m.cmp(a, b)
     return a if c <= 0 else b
 
@@ -458,6 +456,8 @@ def _from(ctx, args, ck):
         dfull = g.group(1) if g else ''
         dst = type_head(dfull) if dfull else ''
     if dst in INT_BITS and isinstance(v, (Int, bool, z3.BoolRef)):
+        if isinstance(v, z3.BoolRef):
+            v = ctx.branch(v)   # keep integers derived from flags concrete (forks)
         return ctx.m.cast(v, dst, 'IntToInt')
     if dst in ('f64', 'f32'):
         if isinstance(v, FP):
@@ -977,7 +977,9 @@ def _sat_sub(ctx, args, ck):
         return Int(max(0, a.v - b.v), a.ty)
     if a.signed:
         raise Unsupported('signed symbolic saturating_sub')
-    return Int(z3.If(z3.ULT(a.z(), b.z()), z3.BitVecVal(0, a.bits), a.z() - b.z()), a.ty)
+    if ctx.branch(z3.ULT(a.z(), b.z())):
+        return Int(0, a.ty)
+    return Int(a.z() - b.z(), a.ty)
 
 
 @_int_method('saturating_add')
@@ -1502,3 +1504,37 @@ def _box_into_vec(ctx, args, ck):
 @model('Box::assume_init')
 def _box_assume_init(ctx, args, ck):
     return BoxObj(args[0].fields[0].fields[1].fields[0].fields[0])
+
+
+@_int_method('saturating_mul')
+def _sat_mul(ctx, args, ck):
+    a, b = args
+    r = ctx.m.int_binop('MulWithOverflow', a, b)
+    if a.signed:
+        raise Unsupported('signed saturating_mul')
+    if ctx.branch(r.fields[1]):
+        return Int((1 << a.bits) - 1, a.ty)
+    return r.fields[0]
+
+
+@_int_method('overflowing_add')
+def _ovf_add(ctx, args, ck):
+    return ctx.m.int_binop('AddWithOverflow', args[0], args[1])
+
+
+@_int_method('overflowing_sub')
+def _ovf_sub(ctx, args, ck):
+    return ctx.m.int_binop('SubWithOverflow', args[0], args[1])
+
+
+@_int_method('overflowing_mul')
+def _ovf_mul(ctx, args, ck):
+    return ctx.m.int_binop('MulWithOverflow', args[0], args[1])
+
+
+@_int_method('count_ones')
+def _count_ones(ctx, args, ck):
+    a = args[0]
+    if isinstance(a.v, int):
+        return Int(bin(a.v & ((1 << a.bits) - 1)).count('1'), 'u32')
+    raise Unsupported('symbolic count_ones')
